@@ -3,7 +3,7 @@
 record which checks raise an alarm, and write /verif/seeded/<id>/meta.json.   usage: tools/seed_matrix.py [ids...]"""
 import json, os, subprocess, sys, shutil, re
 V = "/verif"
-EXTRA = {"C12-1": ["C19"], "C12-3": ["C05"], "C15-2": ["C03"], "C16-1": ["C09"], "C17-3": ["C19"], "C07-3": ["C20", "C06"], "C15-1": ["C20"], "C16-3": ["C20"], "C14-2": ["C05"], "C09-2": ["C20"], "C07-5": ["C06"], "C15-5": ["C03"], "C05-5": ["C19"], "C09-5": ["C19"], "C14-4": ["C19"]}
+EXTRA = {"C12-1": ["C19"], "C12-3": ["C05"], "C15-2": ["C03"], "C16-1": ["C09"], "C17-3": ["C19"], "C07-3": ["C20", "C06"], "C15-1": ["C20"], "C16-3": ["C20"], "C14-2": ["C05"], "C09-2": ["C20"], "C07-5": ["C06"], "C15-5": ["C03"], "C05-5": ["C19"], "C09-5": ["C19"], "C14-4": ["C19"], "C16-7": ["C09"], "C15-7": ["C03"], "C08-6": ["C20"]}
 
 
 def sh(cmd, **kw):
